@@ -37,6 +37,10 @@ def outcome_brief(o):
     return "err:" + o[1]
 
 
+def is_stack_exhaustion(o) -> bool:
+    return o[0] == "err" and o[1] == "RecursionError"
+
+
 def mismatch_kind(obs_o, ref_o):
     if obs_o[0] == "ok" and ref_o[0] == "ok":
         return "teal-differs"
@@ -55,6 +59,7 @@ class Sim:
         self.ref_lock = threading.Lock()
         self.refs_computed = 0
         self.iso_jobs = 0
+        self.skipped_recursion = 0
 
     def close(self):
         self.pool.close()
@@ -153,6 +158,11 @@ class Sim:
                 return
             done.add(key)
             ref = self.reference(hs, programs[ob["p"]], ob)
+            if is_stack_exhaustion(ob["outcome"]) or is_stack_exhaustion(ref):
+                # RecursionError is a function of stack depth at entry, which C11 does not
+                # speak about: never compared (counted, so that it cannot silently grow)
+                self.skipped_recursion += 1
+                return
             if outcome_key(ob["outcome"]) != outcome_key(ref):
                 viols.append(self._viol(h, via, ob, ref))
 
@@ -183,6 +193,9 @@ class Sim:
                     break
             for ob in obs:
                 io = iso_by_i.get(ob["i"])
+                if io is not None and (is_stack_exhaustion(ob["outcome"]) or is_stack_exhaustion(io["outcome"])):
+                    self.skipped_recursion += 1
+                    continue
                 if io is None or outcome_key(ob["outcome"]) != outcome_key(io["outcome"]):
                     check(hist, "isolated-filter", ob, hs_ref)
                     if io is not None:
